@@ -85,6 +85,10 @@ type vcfg struct {
 	Buckets   int `json:"buckets"`
 	FileSize  int `json:"file_size"`
 	Threshold int `json:"threshold"`
+	// Hot > 0: that many buckets are reserved for hot keys (a key is hot from its HotThr-th
+	// out-of-line write on); the bucket of every out-of-line entry is then reported, not predicted.
+	Hot    int `json:"hot,omitempty"`
+	HotThr int `json:"hot_thr,omitempty"`
 }
 
 type vrun struct {
@@ -123,6 +127,17 @@ func (r *vrun) openOpts() *NoKV.Options {
 	opt.ValueLogHotBucketCount = 0
 	opt.ValueLogHotKeyThreshold = 0
 	opt.HotRingEnabled = false
+	if r.cfg.Hot > 0 {
+		// hot/cold routing with a plain per-key counter (no window, rotation or decay)
+		opt.ValueLogHotBucketCount = r.cfg.Hot
+		opt.ValueLogHotKeyThreshold = int32(r.cfg.HotThr)
+		opt.HotRingEnabled = true
+		opt.ValueLogHotRingOverride = false
+		opt.HotRingWindowSlots = 0
+		opt.HotRingRotationInterval = 0
+		opt.HotRingDecayInterval = 0
+		opt.HotWriteBurstThreshold = 0
+	}
 	opt.EnableWALWatchdog = false
 	opt.WriteHotKeyLimit = 0
 	opt.NumCompactors = 1
@@ -244,20 +259,34 @@ func (r *vrun) emitWrite(ents []wEnt, what string) {
 	l := r.vlayout()
 	fresh := r.newRecords(l)
 	used := make([]bool, len(ents))
+	routed := r.cfg.Hot > 0
 	var terms []string
 	var buckets []uint32
 	for b := range fresh {
 		buckets = append(buckets, b)
 	}
 	sort.Slice(buckets, func(i, j int) bool { return buckets[i] < buckets[j] })
+	wrap := func(t string, b uint32) string {
+		if routed {
+			return fmt.Sprintf("(%s, %d)", t, b)
+		}
+		return t
+	}
+	op := "XW "
+	if routed {
+		op = "XWr "
+	}
 	for _, b := range buckets {
 		for _, rec := range fresh[b] {
 			found := false
 			for i, e := range ents {
 				if !used[i] && bytes.Equal(rec.Key, e.ikey()) {
 					used[i], found = true, true
-					terms = append(terms, r.recTerm(e))
+					terms = append(terms, wrap(r.recTerm(e), b))
 					r.big++
+					if routed {
+						r.c.Count(fmt.Sprintf("routed_bucket_%d", b))
+					}
 					break
 				}
 			}
@@ -265,7 +294,7 @@ func (r *vrun) emitWrite(ents []wEnt, what string) {
 				// a record the harness did not write (the discard-statistics key): a write of the system
 				base := kv.ParseKey(rec.Key)
 				r.seq++
-				r.emit(fmt.Sprintf("XW [W %s %d %s %d %d %d]", corr.Hex(base), kv.ParseTs(rec.Key), corr.Hex(rec.Value), rec.Meta, rec.ExpiresAt, r.seq),
+				r.emit(op+"["+wrap(fmt.Sprintf("W %s %d %s %d %d %d", corr.Hex(base), kv.ParseTs(rec.Key), corr.Hex(rec.Value), rec.Meta, rec.ExpiresAt, r.seq), b)+"]",
 					fmt.Sprintf("system write key=%q", rec.Key))
 				r.c.Count("system_vlog_write")
 			}
@@ -273,13 +302,13 @@ func (r *vrun) emitWrite(ents []wEnt, what string) {
 	}
 	for i, e := range ents {
 		if !used[i] {
-			terms = append(terms, r.recTerm(e))
+			terms = append(terms, wrap(r.recTerm(e), 0))
 		}
 	}
 	for _, e := range ents {
 		r.touch(baseKey(e.cf, e.user), e.ver)
 	}
-	r.emit("XW "+corr.List(terms), what)
+	r.emit(op+corr.List(terms), what)
 	r.emitVl(l)
 }
 
@@ -579,8 +608,12 @@ func (r *vrun) reopen() {
 	for b, recs := range r.newRecords(vl) {
 		for _, rec := range recs {
 			r.seq++
-			r.emit(fmt.Sprintf("XW [W %s %d %s %d %d %d]", corr.Hex(kv.ParseKey(rec.Key)), kv.ParseTs(rec.Key), corr.Hex(rec.Value), rec.Meta, rec.ExpiresAt, r.seq),
-				fmt.Sprintf("system write during close bucket=%d key=%q", b, rec.Key))
+			t := fmt.Sprintf("W %s %d %s %d %d %d", corr.Hex(kv.ParseKey(rec.Key)), kv.ParseTs(rec.Key), corr.Hex(rec.Value), rec.Meta, rec.ExpiresAt, r.seq)
+			if r.cfg.Hot > 0 {
+				r.emit(fmt.Sprintf("XWr [(%s, %d)]", t, b), fmt.Sprintf("system write during close bucket=%d key=%q", b, rec.Key))
+			} else {
+				r.emit("XW ["+t+"]", fmt.Sprintf("system write during close bucket=%d key=%q", b, rec.Key))
+			}
 			r.c.Count("system_vlog_write")
 		}
 	}
@@ -626,6 +659,8 @@ func (r *vrun) runGC(t gcTarget, writer string) {
 			for _, o := range r.ops[mark:] {
 				if strings.HasPrefix(o, "XW ") {
 					ts = append(ts, strings.TrimPrefix(o, "XW "))
+				} else if strings.HasPrefix(o, "XWr ") {
+					ts = append(ts, strings.TrimPrefix(o, "XWr "))
 				}
 			}
 			r.ops, r.desc = r.ops[:mark], r.desc[:mark]
@@ -645,15 +680,32 @@ func (r *vrun) runGC(t gcTarget, writer string) {
 	}
 	l := r.vlayout()
 	nseq := r.seq + 1 // ghost numbers of the entries GC wrote back: after everything acknowledged so far
-	if writer != "" && ran && wterm != "" {
+	fresh := r.newRecords(l)
+	moved := 0
+	var routes []string
+	var fb []uint32
+	for b := range fresh {
+		fb = append(fb, b)
+	}
+	sort.Slice(fb, func(i, j int) bool { return fb[i] < fb[j] })
+	for _, b := range fb {
+		for _, rec := range fresh[b] {
+			moved++
+			routes = append(routes, fmt.Sprintf("Rt %s %d %d", corr.Hex(kv.ParseKey(rec.Key)), kv.ParseTs(rec.Key), b))
+		}
+	}
+	routed := r.cfg.Hot > 0
+	switch {
+	case writer != "" && ran && wterm != "" && routed:
+		r.emit(fmt.Sprintf("XGCWr %d %d %d (%s) %d %s", t.bucket, t.fid, nseq, wterm, res, corr.List(routes)), fmt.Sprintf("gc bucket=%d fid=%d with writer %q at the yield point -> err=%v", t.bucket, t.fid, wdesc, err))
+		r.races++
+	case writer != "" && ran && wterm != "":
 		r.emit(fmt.Sprintf("XGCW %d %d %d (%s) %d", t.bucket, t.fid, nseq, wterm, res), fmt.Sprintf("gc bucket=%d fid=%d with writer %q at the yield point -> err=%v", t.bucket, t.fid, wdesc, err))
 		r.races++
-	} else {
+	case routed:
+		r.emit(fmt.Sprintf("XGCr %d %d %d %d %s", t.bucket, t.fid, nseq, res, corr.List(routes)), fmt.Sprintf("gc bucket=%d fid=%d -> err=%v", t.bucket, t.fid, err))
+	default:
 		r.emit(fmt.Sprintf("XGC %d %d %d %d", t.bucket, t.fid, nseq, res), fmt.Sprintf("gc bucket=%d fid=%d -> err=%v", t.bucket, t.fid, err))
-	}
-	moved := 0
-	for _, recs := range r.newRecords(l) {
-		moved += len(recs)
 	}
 	r.resetSeen(l)
 	r.seq += uint64(moved)
@@ -824,6 +876,9 @@ func (r *vrun) finish(tag string) {
 	r.c.CountN("gc_races", r.races)
 	r.c.CountN("vlog_values", r.big)
 	r.c.Count(fmt.Sprintf("buckets_%d", r.cfg.Buckets))
+	if r.cfg.Hot > 0 {
+		r.c.Count("hot_bucket_routing")
+	}
 	r.c.Count(fmt.Sprintf("file_size_%d", r.cfg.FileSize))
 	term := fmt.Sprintf("Cs %d %d %d %d %d %s", first, r.now, r.cfg.Threshold, r.cfg.FileSize, r.cfg.Buckets, corr.List(r.ops))
 	r.c.Emit(corr.Case{Coq: term, Nontrivial: nontriv, Desc: map[string]any{"tag": tag, "cfg": r.cfg, "prog": r.steps}})
